@@ -1,4 +1,4 @@
-package main
+package main_test
 
 // C15 — criteria omission removes exactly the requested share, weakest first.
 
